@@ -35,6 +35,7 @@ const (
 	CodeDeadline      = 1005
 	CodeBoom          = 1006
 	CodeTemp          = 1007
+	CodeEOF           = 1008 // a plain io.EOF, distinct from io.ErrUnexpectedEOF
 	CodeUnknown       = 1099
 )
 
@@ -92,6 +93,8 @@ func ErrOf(enc int) error {
 		return ErrBoom
 	case CodeTemp:
 		return ErrTemp
+	case CodeEOF:
+		return io.EOF
 	}
 	if IsTransport(enc) {
 		return fmt.Errorf("fakert: unknown code %d", enc)
@@ -112,6 +115,8 @@ func Classify(err error) int {
 	switch {
 	case errors.Is(err, io.ErrUnexpectedEOF):
 		return CodeUnexpectedEOF
+	case errors.Is(err, io.EOF):
+		return CodeEOF
 	case errors.Is(err, syscall.ECONNRESET):
 		return CodeConnReset
 	case errors.Is(err, syscall.EPIPE):
@@ -189,10 +194,11 @@ const (
 	AppliedLost              // append, then return the Go error ErrOf(Code)
 	RejectedCode             // do not append, answer partition ErrorCode = Code
 	NotApplied               // do not append, return the Go error ErrOf(Code)
+	Held                     // hold the request for Delay IGNORING its ctx, only then append and acknowledge
 )
 
 func (k Kind) String() string {
-	return [...]string{"acked", "lost", "rejected", "notapplied"}[k]
+	return [...]string{"acked", "lost", "rejected", "notapplied", "held"}[k]
 }
 
 // Reaction is one entry of a partition's fault script.
@@ -239,6 +245,9 @@ type Fake struct {
 	expected   map[uint64]kafka.Message // submitted messages by id (nil = no check)
 	recAnomaly string                   // first record/attribute mismatch seen
 	acked      map[uint64]AckedAt       // where every acknowledged id was written
+
+	inflight    map[TP]int // produce round trips currently inside the fake
+	twoInFlight bool       // two of the same partition were inside at the same time
 }
 
 // AckedAt is the place an acknowledged message was written to, as answered to
@@ -259,6 +268,7 @@ func New(hist *History, parts []int) *Fake {
 		logs:     map[TP][]uint64{},
 		touched:  map[TP]bool{},
 		acked:    map[uint64]AckedAt{},
+		inflight: map[TP]int{},
 	}
 	for i, n := range parts {
 		name := fmt.Sprintf("t%d", i)
@@ -290,6 +300,26 @@ func (f *Fake) RecordAnomaly() string {
 	f.mu.Lock()
 	defer f.mu.Unlock()
 	return f.recAnomaly
+}
+
+// TwoInFlight reports whether two produce round trips of one topic partition
+// were ever inside the fake at the same time (a writer has one sender per
+// partition, so this must never happen).
+func (f *Fake) TwoInFlight() bool {
+	f.mu.Lock()
+	defer f.mu.Unlock()
+	return f.twoInFlight
+}
+
+// InFlight returns the number of produce round trips inside the fake now.
+func (f *Fake) InFlight() int {
+	f.mu.Lock()
+	defer f.mu.Unlock()
+	n := 0
+	for _, c := range f.inflight {
+		n += c
+	}
+	return n
 }
 
 // Acked tells where the message id was written by its acknowledged attempt.
@@ -542,6 +572,15 @@ func (f *Fake) produce(ctx context.Context, r *produce.Request) (kafka.Response,
 	}
 	f.touched[tp] = true
 	f.produceCnt++
+	f.inflight[tp]++
+	if f.inflight[tp] > 1 {
+		f.twoInFlight = true
+	}
+	defer func() { // runs with the lock released
+		f.mu.Lock()
+		f.inflight[tp]--
+		f.mu.Unlock()
+	}()
 	if f.expected != nil && f.recAnomaly == "" {
 		for _, x := range recs {
 			m, ok := f.expected[x.id]
@@ -554,6 +593,14 @@ func (f *Fake) produce(ctx context.Context, r *produce.Request) (kafka.Response,
 				break
 			}
 		}
+	}
+	if react.Kind == Held {
+		// The request is on its way for Delay, whatever its context says; it
+		// is applied, journalled and acknowledged only when it lands.
+		f.mu.Unlock()
+		time.Sleep(react.Delay)
+		f.mu.Lock()
+		react = Reaction{Kind: AppliedAcked}
 	}
 	base := int64(len(f.logs[tp]))
 	applied := react.Kind == AppliedAcked || react.Kind == AppliedLost
